@@ -524,6 +524,48 @@ def w_order_recv(t):
                "no schedule lets a second receiver read from the transport or touch the reassembler inside another receiver's message")
 
 
+def w_eagain(n, via=None):
+    """one write of the frame is answered with EAGAIN / would-block (the transport has a timeout, so the library waits for
+    writability and tries again); before and after it the transport may accept short counts (symbolic): the wire still carries
+    exactly one complete frame"""
+    quiet_logging()
+    import selectors as _selectors
+    from .common import ReadySelectors
+    from .envpatch import EnvPatch
+    payload = sx.sym_bytes("p", n)
+    key = sx.sym_bytes("k", 4)
+    exp = ref_encode(1, 2, payload, key)
+    F = len(exp)
+    first = sx.choice("first", F + 1)  # bytes accepted before the would-block (0 = the very first write blocks; F = never reached)
+    accept = ([first] if 0 < first < F else []) + (["wouldblock"] if first < F else [])
+    rest = F - (first if first < F else 0)
+    if first < F and rest > 1:
+        accept.append(sx.choice("second", rest) + 1)
+    sock = FakeSock(accept=accept)
+    sock.timeout = 5
+    ep = EnvPatch()
+    rs = ReadySelectors()
+    ep.replace(_selectors, rs)
+    ep.replace(_selectors.DefaultSelector, rs.DefaultSelector)
+    try:
+        ws = new_ws(sock, via=via, get_mask_key=KeySource([key]))
+        try:
+            ret = ws.send_binary(payload)
+        except (sx.Control, sx.ConcreteFailure, sx.ReplayMismatch):
+            raise
+        except Exception as e:
+            sx.require(False, "send raised %s when a write would block" % type(e).__name__, n=n, first=first)
+            return
+    finally:
+        ep.restore()
+    wire = sock.wire()
+    sx.require(len(wire) == F, "would-block on one write: total bytes accepted == frame length (nothing repeated, nothing dropped)", n=n,
+               first=first, got=len(wire))
+    sx.require(wire == exp, "would-block on one write: the wire carries exactly one complete frame", n=n, first=first)
+    sx.require(ret == F, "return value is the frame length", n=n)
+    cover("eagain")
+
+
 def w_recv_sched(apis):
     """two threads receiving through the frame lock only (as close() does next to a thread in recv()): every scheduling decision at
     a lock operation / transport read a solver choice; each frame is handed out whole and once (C02's R-threads, shared)"""
@@ -550,6 +592,10 @@ def obligations(tier):
                           "for frames up to %d bytes; payload and key symbolic; plain WebSocket and WebSocket writing through Dispatcher / SSLDispatcher" % (14 if thorough else 12, 200 if thorough else 80),
                    must_cover=["short", "multi-write"], budget_s=2400 if thorough else 900,
                    kernel=["WebSocket.send_frame", "WebSocket._send", "_socket.send", "DispatcherBase.send"]),
+        Obligation("W-eagain", w_eagain, [dict(n=n) for n in (0, 1, 3, 125)] + [dict(n=2, via=v) for v in ("dispatcher", "ssl-dispatcher")],
+                   bounds="frames of 0, 1, 3, 125 payload bytes; EAGAIN on one write after a symbolic number of accepted bytes (every position), "
+                          "short count after it symbolic; socket with a timeout (the library waits for writability and retries)",
+                   must_cover=["eagain"], kernel=["_socket.send (would-block retry)", "WebSocket.send_frame"]),
         Obligation("W-recv-sched", w_recv_sched, [dict(apis=a) for a in (("recv_frame", "recv_frame"), ("recv_data_frame", "recv_frame"))],
                    bounds="2 threads, one receive call each (recv_frame / recv_data_frame) on a stream of two symbolic binary frames; every scheduling "
                           "decision at a lock acquire/release and before each transport read is a solver choice",
